@@ -3,10 +3,10 @@ package sender
 // HMapPtr (C01/C02, sender's read window): requests of the sizes the delta search makes
 // (one block, a chunk, chunk + block + 1, chunk + 2 blocks + 1) at offsets around the
 // window and alignment boundaries of a file larger than the 256 KiB window, one request
-// or two in sequence. Every request that lies inside the file must succeed and return
+// or two in sequence (grow=1: the second request is larger than the default window). Every request that lies inside the file must succeed and return
 // exactly the file's bytes at that range (spot-checked at both ends).
 func HMapPtr() {
-	size, calls := vparam("size"), vparam("calls")
+	size, calls, grow := vparam("size"), vparam("calls"), vparam("grow")
 	const b = 700
 	data := make([]byte, size)
 	f := &vfile{data: data, info: &vinfo{name: "f", size: int64(size)}}
@@ -18,6 +18,15 @@ func HMapPtr() {
 	var reqs []req
 	for c := 0; c < calls; c++ {
 		l := lens[nd_range(0, len(lens)-1)]
+		if grow == 1 {
+			// narrow instance: a small request first, then one larger than the default window,
+			// so the window is enlarged while part of it must be kept
+			if c == 0 {
+				vassume(l <= b)
+			} else {
+				vassume(l > chunkSize)
+			}
+		}
 		off := bases[nd_range(0, len(bases)-1)] + nd_range(-1, 1)
 		if off < 0 {
 			off = 0
